@@ -10,6 +10,10 @@ SEARCH = dict(
     thorough=dict(max_worlds=3, extra_consts=2, limit=20000, sample=4000))
 
 
+DEEP_WORLDS = 3
+DEEP_BUDGET = 2000000
+
+
 def cfg_json(cfg, driver, order):
     return dict(cfg=cfg, driver=driver, order=order)
 
@@ -26,6 +30,18 @@ def monitor_valid(name, S, arg, r, cfg, driver, order, out, tier, rng, label='')
     out.count('valid_verdicts_checked')
     out.count('oracle_complete' if res.complete else 'oracle_sampled')
     out.count('interpretations_explored', res.explored)
+    if res.model is None and S.modal and SEARCH[tier]['max_worlds'] < DEEP_WORLDS and \
+            out.counters.get('deep_interpretations', 0) < DEEP_BUDGET:
+        # escalate to frames of exactly three worlds (sibling worlds with contradicting obligations need three), within a
+        # per-unit budget of interpretations so that the quick tier stays quick
+        deep = search.find_countermodel(S, arg[0], arg[1], rng=rng, **dict(SEARCH[tier], max_worlds=DEEP_WORLDS,
+                                                                           min_worlds=DEEP_WORLDS, sample=40))
+        if deep.explored:
+            out.count('deep_searches_three_worlds')
+            out.count('deep_interpretations', deep.explored)
+            out.count('interpretations_explored', deep.explored)
+        if deep.model is not None:
+            res = deep
     if res.model is None:
         return None
     cm = res.model
